@@ -31,7 +31,8 @@ ASSUMPTIONS = [
     "coroutine calls made meanwhile are not judged (their futures are cancelled by the harness)",
 ]
 
-KINDS = ["coro_value", "coro_raise", "coro_raise_base", "coro_cancelled", "plain_none", "plain_value", "plain_raise", "attr"]
+KINDS = ["coro_value", "coro_raise", "coro_raise_base", "coro_cancelled", "plain_none", "plain_wrapped", "plain_value", "plain_raise",
+         "plain_raise_rt", "attr"]
 
 
 class Boom(Exception):
@@ -83,6 +84,17 @@ class Target:
     def plain_none(self, arg, **kw):
         self._rec("plain_none", arg)
 
+    async def _inner_async(self, arg, **kw):
+        return None
+
+    def plain_wrapped(self, arg, **kw):
+        # a plain method produced by a decorator around a coroutine function (it carries __wrapped__): still a plain method
+        self._rec("plain_wrapped", arg)
+
+    def plain_raise_rt(self, arg, **kw):
+        self._rec("plain_raise_rt", arg)
+        raise RuntimeError(arg)
+
     def plain_value(self, arg, **kw):
         self._rec("plain_value", arg)
         return arg
@@ -90,6 +102,9 @@ class Target:
     def plain_raise(self, arg, **kw):
         self._rec("plain_raise", arg)
         raise Boom(arg)
+
+
+Target.plain_wrapped.__wrapped__ = Target._inner_async
 
 
 class RawLoopThread:
@@ -353,7 +368,7 @@ async def run_script(plan, r: Result):
                     if kind == "plain_value" and (got[0] != "returned" or got[1] != arg):
                         r.bad("C20:owner-call-not-direct", f"{kind}: {got}")
                         return crossed
-                    if kind == "plain_raise" and got[0] != "call-raised":
+                    if kind in ("plain_raise", "plain_raise_rt") and got[0] != "call-raised":
                         r.bad("C20:owner-call-not-direct", f"{kind}: {got}")
                         return crossed
             if state == "running":
@@ -367,6 +382,11 @@ async def run_script(plan, r: Result):
                 # plain_value across threads -> TypeError in the owner's handler; plain_raise -> Boom there
                 n_val = sum(1 for c, k, cl, a in issued if k == "plain_value" and cl != "owner")
                 n_rai = sum(1 for c, k, cl, a in issued if k == "plain_raise" and cl != "owner")
+                n_rt = sum(1 for c, k, cl, a in issued if k == "plain_raise_rt" and cl != "owner")
+                rt = sum(1 for ex in new_errors if type(ex) is RuntimeError)
+                if rt != n_rt:
+                    r.bad("C20:queued-exception-lost", f"{n_rt} calls raising RuntimeError, {rt} seen in owner handler")
+                    return crossed
                 te = sum(1 for ex in new_errors if isinstance(ex, TypeError))
                 bo = sum(1 for ex in new_errors if isinstance(ex, Boom))
                 if te != n_val:
